@@ -139,6 +139,9 @@ def check_model_case(ctx: Ctx, case, model_reply, value_site="equation-meaning")
     ordered = [e for e in sm["eqs"] if e["kind"] == "T"] + [e for e in sm["eqs"] if e["kind"] == "M"]
     # oracle values of the unexpanded structured equations
     want = []
+    # arithmetic exceptions (division by an exact zero, overflow) that the oracle's own evaluation of the equations raises at
+    # these data: the implementation raising the same exception class there is the meaning of the equation, not a failure
+    oracle_raises = set()
     for ver in ("dyn", "std"):
         row = []
         for e in ordered:
@@ -153,8 +156,10 @@ def check_model_case(ctx: Ctx, case, model_reply, value_site="equation-meaning")
                     row.append(("F", L.ev_eqn(eqn, data, t, subs, sh, False), L.eqn_scale(eqn, data, t, subs, sh)))
                 else:
                     row.append(("T", L.ev_eqn(eqn, data, t, subs, sh, False), L.eqn_scale(eqn, data, t, subs, sh)))
-            except (L.NotExact, ZeroDivisionError, OverflowError, ValueError):
+            except (L.NotExact, ZeroDivisionError, OverflowError, ValueError) as exc:
                 row.append(("skip", None, 0.0))
+                if not isinstance(exc, L.NotExact):
+                    oracle_raises.add(type(exc).__name__)
         want.append(row)
     by_kind, descr, log, neq = expected_discrete(sm)
     first_line = None
@@ -170,6 +175,9 @@ def check_model_case(ctx: Ctx, case, model_reply, value_site="equation-meaning")
             ctx.fail(site_for(features, "source-rejected"), payload, f"from_string raises on a source of the documented language: {dyn}")
             continue
         if std is None:
+            if any(name in str(dyn) for name in oracle_raises):
+                ctx.count("both-raise-arithmetic-error")
+                continue
             ctx.fail(site_for(features, "equation-evaluation-raises"), payload, str(dyn))
             continue
         names_i, descr_i, log_i, neq_i = parse_discrete(line)
